@@ -1288,7 +1288,13 @@ impl Check for C14 {
             shape,
             fault: if f == 0 { None } else { Some(f - 1) },
             input_seed: g.next_u64(),
-            list_len: if g.chance(1, 60) { g.log_uniform(5, 3000) } else { g.urange(0, 4) },
+            list_len: if g.chance(1, 60) {
+                g.log_uniform(5, 3000)
+            } else if (run / per) % 8 == 5 {
+                ((run / per / 8) % 129) as usize // dense sweep of Vec lengths 0..=128 (by run index)
+            } else {
+                g.urange(0, 4)
+            },
             rng: RngSpec::swarm(g),
             tree: None,
             more: gen_more(g, MAX_FAULT),
